@@ -117,7 +117,7 @@ def lemma_obligations(unit, text, spans, fns):
             continue
         oid = '%s/lemma:%s' % (unit.name, f['qual'])
         hdr = ' '.join(text[f['start']:f['body_open']].split())
-        obs[oid] = {'props': pr, 'kind': 'lemma', 'fn': f['qual'], 'text': hdr[:400]}
+        obs[oid] = {'props': pr, 'kind': 'lemma', 'fn': f['qual'], 'text': hdr[:400], 'property_level': True}
     return obs
 
 
